@@ -16,7 +16,13 @@ TECHNIQUE = (
 RULE = (
     "M = V diag(lambda) V^-1, V = U1 diag(s) U2 (Givens-built unitaries, cond(V) = kappa log-uniform in [1,50]), "
     "eigenvalues in distinct lattice cells of the square inscribed in |lambda| <= 50/kappa (so ||M||_2 <= 50) with "
-    "min |lambda_i-lambda_j| >= 0.1 by construction; exp_matrix_2D on 2x2, exp_matrix on 2x2 and 4x4. Checked: "
+    "min |lambda_i-lambda_j| >= 0.1 by construction ('spectral', 2/5 of the cases); 'singular' (1/5): the same with the "
+    "first eigenvalue exactly 0 (1/4) or of modulus 10^-(k+u) * 50/kappa, k in 3..16, any phase (a singular or nearly "
+    "singular matrix such as gamma_S(N=2); the other eigenvalues keep any phase); 'near' (2/5): a special matrix S "
+    "(Hermitian, real symmetric, normal, diagonal or upper triangular, eigenvalues >= 0.2 apart by construction) plus "
+    "a generic complex perturbation, M = S + eps ||S|| P/dim with |P_ij| <= 1 and eps = 10^-(k+u), k in 3..11 (or "
+    "exactly 0, 1/8), kept when the perturbed matrix still has separation >= 0.1, norm <= 50, cond(V) <= 50 (else "
+    "discarded and counted). exp_matrix_2D on 2x2, exp_matrix on 2x2 and 4x4. Checked: "
     "exp == scipy.linalg.expm(M); returned eigenvalues == constructed spectrum; P_i P_j = delta_ij P_i; sum P_i = 1; "
     "M = sum lambda_i P_i. Non-trivial = eigenvalues with both signs of the real part (all are complex); distinct by "
     "the full case."
@@ -25,6 +31,9 @@ ASSUMPTIONS = [
     "scipy.linalg.expm (Al-Mohy/Higham scaling and squaring) is the trusted reference exponential",
     "tolerances (2-norm): exp 1e-9*kappa*exp(max Re lambda) (DESIGN C23); P_iP_j 1e-9*kappa^2; sum P 1e-9*kappa; "
     "spectral sum and eigenvalues 1e-9*kappa*max(1,||M||)",
+    "'near' family: eigenvalues and cond(V) of the perturbed matrix come from numpy.linalg.eig in the harness; they only "
+    "scale the tolerances / confirm the domain, the verdict rests on expm, the projector identities and M = sum "
+    "lambda_i P_i (Bauer-Fike: eigenvalues of a normal S move by <= eps ||S|| <= 0.05)",
     "domain = diagonalisable matrices with well separated eigenvalues (>= 0.1) as stated by the property; defective or "
     "degenerate matrices (where exp_matrix_2D divides by zero) are outside it",
 ]
@@ -46,7 +55,13 @@ def budget(tier):
 def _case(draw):
     fn = draw(st.sampled_from(["2D", "gen2", "gen4"]))
     dim = 4 if fn == "gen4" else 2
-    return {"fn": fn, "mat": draw(km.spectral_case(dim, kappa_max=50.0, norm_max=50.0, min_sep=0.1))}
+    family = draw(st.sampled_from(["spectral", "spectral", "near", "near", "singular"]))
+    if family == "near":
+        return {"fn": fn, "near": draw(km.near_special_case(dim))}
+    return {
+        "fn": fn,
+        "mat": draw(km.spectral_case(dim, kappa_max=50.0, norm_max=50.0, min_sep=0.1, tiny_first=family == "singular")),
+    }
 
 
 def strategy(tier):
@@ -59,9 +74,17 @@ def check_case(case):
 
     from ekore import anomalous_dimensions as ad
 
-    m, _v, lam, kappa = km.materialise(case["mat"])
-    dim = m.shape[0]
     fn = case["fn"]
+    near = case.get("near")
+    if near is None:
+        m, _v, lam, kappa = km.materialise(case["mat"])
+    else:
+        # special matrix + small generic perturbation: spectrum and conditioning of the perturbed matrix are only
+        # needed to scale the tolerances and to confirm the domain (they are not the oracle)
+        m, _s = km.materialise_near(near)
+        lam, vec = np.linalg.eig(m)
+        kappa = float(np.linalg.cond(vec))
+    dim = m.shape[0]
     nm = max(1.0, float(np.linalg.norm(m, 2)))
     emax = math.exp(float(max(lam.real)))
     res = CaseResult()
@@ -69,12 +92,18 @@ def check_case(case):
     res.nontrivial = both
     res.classes = [
         fn,
+        ("singular" if abs(lam[0]) < 1e-2 * max(abs(lam)) else "spectral") if near is None else f"near-{near['family']}",
         "kappa<3" if kappa < 3 else ("kappa<15" if kappa < 15 else "kappa>=15"),
         "norm<5" if nm < 5 else ("norm<20" if nm < 20 else "norm>=20"),
         "both-signs" if both else "one-sign",
     ]
     sep = min(abs(lam[i] - lam[j]) for i in range(dim) for j in range(i))
-    if sep < 0.1 * (1 - 1e-12) or nm > 50.0 * (1 + 1e-9):
+    if near is not None:
+        eps = near["eps"]
+        res.classes.append("eps=0" if eps == 0 else f"eps:1e{math.floor(math.log10(eps))}")
+        if sep < 0.1 or nm > 50.0 or kappa > 50.0:
+            return CaseResult(discarded=f"near-{near['family']}: outside the domain after perturbation")
+    elif sep < 0.1 * (1 - 1e-12) or nm > 50.0 * (1 + 1e-9):
         raise AssertionError(f"generator broke its contract: sep={sep}, norm={nm}")  # harness error
 
     try:
@@ -89,7 +118,8 @@ def check_case(case):
     except Exception as e:  # noqa: BLE001
         return res.fail(exc_bucket(f"{ID}/call/{fn}", e), f"{e!r} on M={m.tolist()}")
     exp = np.asarray(exp)
-    info = f"[{fn}, kappa={kappa:.3g}, ||M||={nm:.3g}, eig={lam.tolist()}, M={m.tolist()}]"
+    fam = "" if near is None else f", {near['family']} + eps={near['eps']:.3g}"
+    info = f"[{fn}{fam}, kappa={kappa:.3g}, ||M||={nm:.3g}, eig={lam.tolist()}, M={m.tolist()}]"
     if not (np.isfinite(exp).all() and np.isfinite(w).all() and np.isfinite(proj).all()):
         return res.fail(f"{ID}/{fn}/nonfinite", f"non-finite output {info}")
 
